@@ -213,9 +213,11 @@ pub fn plan(prop: &str, tier: &str) -> Option<Plan> {
                 s.push(e2(prop, "tk", H_GOOD, "look1+mut+ch0+shape2", &[], 3, "chk", 40.0));
                 s.push(e2(prop, "zst", H_GOOD, "look+mut+ch1+bulk2+shape2", &[], 1, "chk", 40.0));
                 s.push(e2(prop, "u32", H_CONST, "look1+mut+ch0+shape2", &[], 3, "chk", 40.0));
+                s.push(e1(prop, "u32", H_GOOD, 0, "look1+mut+ch0+shape", &[], 600, 1, 0, "chk", 40.0));
+                s.push(e1(prop, "u32", H_LOW, 0, "look1+mut+ch0+shape", &[], 300, 1, 0, "chk", 40.0));
                 s.push(sweep(prop, "u32", H_GOOD, 100_000, &["cheap"], &[("stride", "3"), ("audit_every", "10000"), ("mix", "1")], "chk", 40.0));
                 s.push(sweep(prop, "u32", H_TAG, 30_000, &["cheap"], &[("stride", "8"), ("audit_every", "5000"), ("mix", "1")], "chk", 40.0));
-                bounds = json!({"E7": "growth path to 10^5 elements with a mixed call menu (entry / raw entry / get_mut / remove_entry on keys of either table, tombstones) against the reference, full audit every 10^4 steps", "E1": "d<=1 at N=64 (u32, 4 hashers, every concrete key) and N=130 (cap0=29); d<=2 at N=31 (class keys in layer 2)", "E2": "fixpoint over u=4 keys (HGood,HLow), u=3 (HConst, Tk), u=1 (ZST)"});
+                bounds = json!({"E1-large": "d<=1 with class keys at every point of the growth path to N=600 (HGood) / 300 (HLow)", "E7": "growth path to 10^5 elements with a mixed call menu (entry / raw entry / get_mut / remove_entry on keys of either table, tombstones) against the reference, full audit every 10^4 steps", "E1": "d<=1 at N=64 (u32, 4 hashers, every concrete key) and N=130 (cap0=29); d<=2 at N=31 (class keys in layer 2)", "E2": "fixpoint over u=4 keys (HGood,HLow), u=3 (HConst, Tk), u=1 (ZST)"});
             } else {
                 for &hk in &HS4 {
                     for &c in &[0usize, 1, 4, 29] {
@@ -241,6 +243,9 @@ pub fn plan(prop: &str, tier: &str) -> Option<Plan> {
                     s.push(sweep(prop, "u32", hk, if hk == H_CONST { 3_000 } else { 1_000_000 }, &["cheap"], &[("stride", "3"), ("audit_every", "50000"), ("mix", "1")], "chk", 600.0));
                 }
                 s.push(sweep(prop, "tk", H_GOOD, 200_000, &["cheap"], &[("stride", "8"), ("audit_every", "20000"), ("mix", "1")], "chk", 600.0));
+                for &hk in &HS4 {
+                    s.push(e1(prop, "u32", hk, 0, "look1+mut+ch0+shape", &[], if hk == H_CONST { 600 } else { 2500 }, 1, 0, "chk", 900.0));
+                }
                 bounds = json!({"E7": "growth path to 10^6 elements (u32; 2*10^5 Tk) with a mixed call menu against the reference", "E1": "d<=1 at N=130 (4 hashers x initial capacities {0,1,4,29,200} x {u32,Tk}); d<=2 at N=64; d<=3 at N=31", "E2": "fixpoint over u=6 (HGood,HLow) / u=5 (HConst,HTag) keys; full alphabet at u=3; ZST"});
             }
         }
@@ -301,6 +306,7 @@ pub fn plan(prop: &str, tier: &str) -> Option<Plan> {
                     s.push(e1(prop, "u32", hk, 0, a, &fl, 31, 2, 1, "chk", 40.0));
                 }
                 s.push(e1(prop, "u32", H_GOOD, 0, a, &fl, 130, 1, 1, "chk", 40.0));
+                s.push(e1(prop, "u32", H_GOOD, 0, a, &fl, 600, 1, 0, "chk", 40.0));
                 s.push(e1(prop, "tk", H_GOOD, 0, a, &fl, 31, 1, 1, "chk", 40.0));
                 s.push(e2(prop, "u32", H_GOOD, "look1+mut+ch0+shape2", &fl, 4, "chk", 40.0));
                 s.push(e2(prop, "u32", H_CONST, "look1+mut+ch0+shape2", &fl, 3, "chk", 40.0));
@@ -381,6 +387,7 @@ pub fn plan(prop: &str, tier: &str) -> Option<Plan> {
                     s.push(e1(prop, "tk", H_GOOD, 0, "wrong/look1+mut+ch0+shape+iterlite", &fl, if prof == "asan" { 16 } else { 31 }, 2, 0, prof, 45.0));
                     if prof == "chk" {
                         s.push(e1(prop, "tk", H_GOOD, 0, "rmold/look1+mut1+ch0+iterlite+clone", &fl, 72, 2, 0, prof, 45.0));
+                        s.push(e1(prop, "tk", H_GOOD, 0, "look1+mut+ch0+shape+iterlite", &fl, 300, 1, 0, prof, 45.0));
                     } else {
                         s.push(e1(prop, "tk", H_GOOD, 0, "rmold", &fl, 72, 1, 0, prof, 45.0));
                     }
@@ -444,6 +451,7 @@ pub fn plan(prop: &str, tier: &str) -> Option<Plan> {
                 s.push(e1(prop, "u32", H_GOOD, 0, "iter", &[], 130, 1, 0, "chk", 45.0));
                 s.push(e1(prop, "u32", H_GOOD, 0, "rmold/iter", &["cursor"], 72, 2, 0, "chk", 45.0));
                 s.push(e1(prop, "u32", H_LOW, 0, "rmold/iter", &["cursor"], 72, 2, 0, "chk", 45.0));
+                s.push(e1(prop, "u32", H_GOOD, 0, "iter", &["cursor"], 400, 1, 0, "chk", 45.0));
                 s.push(e1(prop, "tk", H_GOOD, 0, a, &[], 31, 2, 1, "chk", 45.0));
                 s.push(e2(prop, "u32", H_GOOD, "mut1+ch0+shape2+iter", &[], 3, "chk", 45.0));
                 s.push(e2(prop, "zst", H_GOOD, "mut+bulk2+shape2+iter", &[], 1, "chk", 45.0));
@@ -479,6 +487,7 @@ pub fn plan(prop: &str, tier: &str) -> Option<Plan> {
                 s.push(e1(prop, "u32", H_GOOD, 0, "pred", &["cursor"], 130, 1, 0, "chk", 45.0));
                 s.push(e1(prop, "u32", H_GOOD, 0, "rmold/predlite", &["cursor"], 72, 2, 0, "chk", 45.0));
                 s.push(e1(prop, "u32", H_LOW, 0, "rmold/predlite", &["cursor"], 72, 2, 0, "chk", 45.0));
+                s.push(e1(prop, "u32", H_GOOD, 0, "predlite", &["cursor"], 400, 1, 0, "chk", 45.0));
                 s.push(e1(prop, "tk", H_GOOD, 0, "pred", &["cursor"], 64, 1, 0, "chk", 45.0));
                 s.push(e2(prop, "u32", H_GOOD, "mut1+ch0+shape2+pred", &["cursor"], 3, "chk", 45.0));
                 bounds = json!({"E1": "all predicates (incl. 2^k subsets of class representatives) at every point of the growth path to N=64 (4 hashers) / 130, and structural predicates after <=1 deviation up to N=18", "E2": "fixpoint u=3"});
@@ -543,6 +552,7 @@ pub fn plan(prop: &str, tier: &str) -> Option<Plan> {
                 s.push(e1(prop, "tk", H_GOOD, 0, "ch3", &fl, 31, 1, 0, "chk", 45.0));
                 s.push(e1(prop, "u32", H_GOOD, 0, "ch2", &fl, 48, 1, 1, "chk", 45.0));
                 s.push(e1(prop, "u32", H_GOOD, 0, "ch1", &fl, 130, 1, 0, "chk", 45.0));
+                s.push(e1(prop, "u32", H_GOOD, 0, "ch0", &fl, 500, 1, 0, "chk", 45.0));
                 s.push(e2(prop, "u32", H_GOOD, "ch2+shape2", &fl, 2, "chk", 45.0));
                 s.push(e2(prop, "zst", H_GOOD, "ch3+shape2", &fl, 1, "chk", 45.0));
                 bounds = json!({"E1": "every entry / raw-entry method chain of length <=3 on every key class at every point of the growth path to N=58 (4 hashers); length <=2 on every concrete key to N=48 and after one shaping deviation to N=10; core chains on every class to N=130", "E2": "fixpoint u=2 with all chains of length <=2; ZST length <=3"});
